@@ -435,6 +435,7 @@ func main() {
 	keep := false
 	only := ""
 	list := false
+	from := 0
 	for i, a := range os.Args {
 		switch a {
 		case "--keep":
@@ -444,6 +445,10 @@ func main() {
 		case "--only":
 			if i+1 < len(os.Args) {
 				only = os.Args[i+1]
+			}
+		case "--from": // debugging aid: skip the first N planned projects
+			if i+1 < len(os.Args) {
+				fmt.Sscanf(os.Args[i+1], "%d", &from)
 			}
 		}
 	}
@@ -468,6 +473,9 @@ func main() {
 			}
 		}
 		cases = f
+	}
+	if from > 0 && from < len(cases) {
+		cases = cases[from:]
 	}
 	if list {
 		for _, cs := range cases {
@@ -821,6 +829,9 @@ var assumptions = []string{
 	"type-checking is `go build ./...` with the pinned Go 1.23.8 toolchain against the runtime packages of the tree under test (replace directive); go vet is not run",
 	"the gendriver (cmd/gendriver) calls api.Generate exactly like `gqlgen generate` plus the stubgen plugin; exit 3 = error, 4 = panic",
 	"federation is not part of this property's configuration space (C20 covers the federation plugin)",
+	"colliding-pair obligations are enumerated for type names and enum values only (the two scopes for which gqlgen documents a collision registry, docs/content/reference/name-collision.md); for type names the oracle additionally requires the two GraphQL types to be bound to different Go types",
+	"a compiler message saying that an export file of an imported package vanished (`could not import … no such file or directory`, a shared Go build cache being trimmed by another process) is not attributed to gqlgen: the project is re-run up to twice and a persistent failure ends the check with exit 2",
+	"while a known finding makes a project fail, other defects in the same project are only visible through the digest of the remaining compiler diagnostics (the compiler prints at most 10)",
 }
 
 func replay(path string, keep bool) {
